@@ -311,6 +311,9 @@ fn handle_item(
                             Error::BadCall(e.to_string(), pos, None)
                         }
                     })?;
+                if let Some(loaded) = &mixin.loading {
+                    file_context.unlock_loading(loaded);
+                }
             } else {
                 return Err(Error::BadCall(
                     "Undefined mixin.".into(),
